@@ -645,7 +645,12 @@ func (m *mappedFile) lookup(name string) (v *atomic.Uint64, headOff, head uint32
 	headOff = m.hdrLen + hashOff + h*4
 	head = m.load32(headOff)
 	off := head
-	for off != 0 {
+	for steps := 0; off != 0; steps++ {
+		if steps > len(m.mapping.Data)/recordUnit {
+			// More records than the file can hold:
+			// the chain is corrupt and contains a cycle.
+			return nil, 0, 0, false
+		}
 		ename, next, v, ok := m.entryAt(off)
 		if !ok {
 			return nil, 0, 0, false
@@ -778,9 +783,9 @@ func (m *mappedFile) newCounter(name string) (v *atomic.Uint64, m1 *mappedFile, 
 			next = (*atomic.Uint32)(unsafe.Pointer(&m.mapping.Data[start+12]))
 			v = (*atomic.Uint64)(unsafe.Pointer(&m.mapping.Data[start]))
 		}
-		for off := head; off != old; {
+		for off, steps := head, 0; off != old; steps++ {
 			ename, enext, v, ok := m.entryAt(off)
-			if !ok {
+			if !ok || steps > len(m.mapping.Data)/recordUnit {
 				return nil, nil, errCorrupt
 			}
 			if string(ename) == name {
